@@ -204,6 +204,81 @@ def tapered_tolerance_cases():
     return bad, n
 
 
+def project_input(m):
+    """abstract object list of a real model: end points clustered into point ids by the property's
+       own predicate (closer than 1/1000 of the shortest segment), grounded ends get ground ids.
+       Returns None for shapes the specification does not model (self-closed or doubly grounded curves)."""
+    tol = 1e-3 * m.min_seglen
+    reps = []
+    inp = []
+    ng = 0
+    for g in m.geo:
+        ids = []
+        for e in (0, 1):
+            pt = np.array(g.endpoints[e], float)
+            if m.media is not None and abs(pt[2]) < tol:
+                ng += 1
+                ids.append(100 + ng)
+                continue
+            for k, r in enumerate(reps):
+                if np.linalg.norm(r - pt) <= tol:
+                    ids.append(k + 1)
+                    break
+            else:
+                reps.append(pt)
+                ids.append(len(reps))
+        if ids[0] == ids[1] or (ids[0] > 100 and ids[1] > 100):
+            return None
+        inp.append(dict(p1=ids[0], p2=ids[1], ns=int(g.n_segments), tag=int(g.tag)))
+    if len(reps) > 99:
+        return None
+    return inp
+
+
+def real_model_binding(chk):
+    """code -> spec: the repository's own models (test/*.pym) are projected to abstract object lists,
+       run through spec/TopologyOn.tla (every Topology invariant is evaluated on them) and the
+       specification's pulse table is compared with the real one"""
+    import glob, os, io, contextlib
+    from mininec.mininec import main, Mininec
+    models = []
+    for f in sorted(glob.glob(os.path.join(C.REPO, 'test', '*.pym'))):
+        args = ' '.join(l for l in open(f) if not l.startswith('#')).split()
+        out, err = io.StringIO(), io.StringIO()
+        try:
+            with contextlib.redirect_stdout(out), contextlib.redirect_stderr(err):
+                m = main(args, f_err=err, return_mininec=True)
+        except SystemExit:
+            continue
+        if not isinstance(m, Mininec):
+            continue
+        inp = project_input(m)
+        if inp is None:
+            chk.skip('real model with a shape outside the specification (closed or doubly grounded curve)')
+            continue
+        models.append((os.path.basename(f), m, inp))
+    for ground in (True, False):
+        sel = [x for x in models if (x[1].media is not None) == ground]
+        if not sel:
+            continue
+        recs = T.spec_records(chk, [x[2] for x in sel], ground, name='c12-real-%s' % ground)
+        for (name, m, inp), rec in zip(sel, recs):
+            chk.case('real/' + name, len(inp) >= 2, sample=dict(model=name, objects=len(inp), pulses=len(m.pulses)))
+            chk.traces += 1
+            if rec.get('reject'):
+                chk.violation(dict(kind='real-model-rejected-by-spec', model=name), dict(model=name, input=inp))
+                continue
+            pr = T.project(m)
+            for fld, a, b in (('pulses', pr['pulses'], T.spec_pulses(rec)), ('endSegs', pr['endSegs'], rec['endSegs']),
+                              ('opulses', pr['opulses'], rec['opulses'])):
+                if a != b:
+                    chk.violation(dict(kind='real-model-mismatch', field=fld, model=name),
+                                  dict(model=name, input=inp, field=fld))
+            if len(m.pulses) != count_formula(inp, ground):
+                chk.violation(dict(kind='real-model-count-formula', model=name), dict(model=name, input=inp))
+    chk.cov['real_models_validated'] = len(models)
+
+
 def run(tier):
     chk = C.Check(PID, tier, 'model_checking')
     chk.assumptions = [
@@ -223,6 +298,7 @@ def run(tier):
         for mm in o['mism']:
             chk.violation(dict(kind='mismatch', field=mm.split(':')[0], mode=mode),
                           dict(input=inp, ground=g, mode=mode, field=mm, spec=r))
+    real_model_binding(chk)
     tb, tn = tapered_tolerance_cases()
     chk.case('tapered-tolerance', True, n=tn)
     for b in tb:
